@@ -157,6 +157,19 @@ def check_reports(ctx: Ctx, inp) -> None:
             names = [tc.get("name") for tc in root.iter("testcase")]
             if len(names) != len(set(names)):
                 ctx.disagree("junit:operation-listed-twice", f"{names}", input=inp)
+            # "together with its check results": an operation whose answers were 5xx has a failure, one that was answered
+            # with anything else has none (the /rN operations are only exercised by the unit phases; not_a_server_error is the only check)
+            by_name = {tc.get("name"): tc for tc in root.iter("testcase")}
+            for op in inp["ops"]:
+                label = f"GET {op['path']}/{{seg}}"
+                got_answers = [r for r in answered if r.path.startswith(op["path"] + "/")]
+                tc = by_name.get(label)
+                has_failure = tc is not None and tc.find("failure") is not None
+                if got_answers and op["status"] >= 500 and not has_failure:
+                    ctx.disagree("junit:failing-operation-has-no-failure-element", f"{label} answered {op['status']} {len(got_answers)}x; testcase present: {tc is not None}", input=inp)
+                if op["status"] < 500 and has_failure:
+                    ctx.disagree("junit:failure-element-for-an-operation-that-passed-every-check", f"{label} always answered {op['status']}", input=inp)
+                ctx.classes["junit-operation-judged"] += 1
         # ---- VCR ----
         expected_ids = [r.header("X-Schemathesis-TestCaseId") for r in answered]
         by_id = {r.header("X-Schemathesis-TestCaseId"): r for r in answered}
